@@ -50,10 +50,13 @@ MODES = ["cur", "cur", "cur", "cur", "same", "cross", "badkey", "badtag"]
 def _hist(draw, nmax):
     shape = draw(st.sampled_from([[2, 2], [3, 2]]))
     n = shape[0] * shape[1]
-    add = st.builds(lambda mode, k, tag, lev, arr: {"op": "add", "mode": mode, "k": k, "tag": tag, "lev": lev,
-                                                     "arr": arr},
+    # "own": the caller hands over its own array object (no copy) and keeps using it; "reuse": the array object of the
+    # previous addition is handed over again (the same contribution added at another address)
+    add = st.builds(lambda mode, k, tag, lev, arr, own, reuse: {"op": "add", "mode": mode, "k": k, "tag": tag, "lev": lev,
+                                                                 "arr": arr, "own": own, "reuse": reuse},
                     st.sampled_from(MODES), st.integers(0, 7), st.sampled_from(TAGS),
-                    st.sampled_from(LEVELS), st.lists(st.integers(-5, 5), min_size=2 * n, max_size=2 * n))
+                    st.sampled_from(LEVELS), st.lists(st.integers(-5, 5), min_size=2 * n, max_size=2 * n),
+                    st.booleans(), st.sampled_from([False, False, True]))
     setres = st.builds(lambda lev: {"op": "res", "lev": lev}, st.sampled_from(LEVELS + ["bogus"]))
     ops = draw(st.lists(st.one_of(add, add, add, add, setres), min_size=1, max_size=nmax))
     first = draw(st.sampled_from([None, None, "pathways", "types", "processes", "signals", "off"]))
@@ -270,6 +273,7 @@ def check_case(case, ctx):
     storage = "pathways"
     initialized = False
     adds = []
+    held = []            # (array object the caller kept, its value when it was handed over)
     reductions = 0
     compared_after_reduction = 0
     first_res = case["first_resolution"]
@@ -310,6 +314,9 @@ def check_case(case, ctx):
         # ---- add ---------------------------------------------------------
         arr = (numpy.array(op["arr"][:npts], dtype=float)
                + 1j * numpy.array(op["arr"][npts:], dtype=float)).reshape(shape)
+        if op.get("reuse") and op.get("own") and held:
+            arr = held[-1][0]                # the very same array object as in an earlier addition
+            ctx.label("add:same-array-object-again")
         mode = op["mode"]
         explicit = None
         if not initialized and first_res is not None and mode in ("cur", "same"):
@@ -345,14 +352,23 @@ def check_case(case, ctx):
                 admissible = False          # duplicate tag
                 mode = "duptag"
         where = "%s@%s/%s" % (level, eff_storage, mode)
+        if op.get("own"):
+            given = arr
+            held.append((arr, arr.copy()))
+        else:
+            given = arr.copy()
         try:
             if explicit is None:
-                tw._add_data(arr.copy(), dtype=key, tag=tag)
+                tw._add_data(given, dtype=key, tag=tag)
             else:
-                tw._add_data(arr.copy(), resolution=explicit, dtype=key, tag=tag)
+                tw._add_data(given, resolution=explicit, dtype=key, tag=tag)
             raised = False
         except Exception:
             raised = True
+        for obj, snap in held:
+            if not numpy.array_equal(obj, snap):
+                ctx.fail("add/callers-array-changed", where, step=step)
+                return
         if not initialized and not raised:
             initialized = True
             storage = eff_storage
@@ -372,7 +388,7 @@ def check_case(case, ctx):
                 if level not in LEVELS or key not in KEYS.get(level, []):
                     ctx.fail("add/accepted-inadmissible", where, step=step, key=key, tag=tag)
                     return
-            adds.append({"level": level, "key": key, "tag": tag, "arr": arr})
+            adds.append({"level": level, "key": key, "tag": tag, "arr": arr.copy()})
         if tw.get_resolution() != storage:
             ctx.fail("add/bookkeeping", where, got=tw.get_resolution(), want=storage, step=step)
             return
